@@ -77,6 +77,7 @@ const (
 	opJSONDecoder
 	opJSONTokenizer
 	opJSONMarshalAnyMap
+	opJSONTokenizerReuse
 	opProtoMarshal
 	opProtoSize
 	opProtoUnmarshal
@@ -87,7 +88,7 @@ const (
 	numOps
 )
 
-var opNames = []string{"json.Marshal", "json.Append", "json.Unmarshal", "json.Parse", "json.Encoder.Encode", "json.Decoder.Decode", "json.Tokenizer", "json.Marshal(map[string]any of fresh types)",
+var opNames = []string{"json.Marshal", "json.Append", "json.Unmarshal", "json.Parse", "json.Encoder.Encode", "json.Decoder.Decode", "json.Tokenizer", "json.Marshal(map[string]any of fresh types)", "json.Tokenizer(error, Reset, reuse)",
 	"proto.Marshal", "proto.Size", "proto.Unmarshal", "proto.MarshalTo", "proto.TypeOf", "thrift.Marshal", "thrift.Unmarshal"}
 
 type c09Op struct {
@@ -158,13 +159,15 @@ func (op *c09Op) exec() (res c09Res) {
 		b, err := json.Append(make([]byte, 0, 16), op.val.Interface(), op.flags)
 		res.out, res.err = b, errStr(err)
 	case opJSONEncoder:
-		var buf bytes.Buffer
-		enc := json.NewEncoder(&buf)
+		// the writer is user code: it lets other simulated goroutines run while
+		// it still holds the slice it was lent, and only then consumes it
+		w := &yieldingWriter{}
+		enc := json.NewEncoder(w)
 		err := enc.Encode(op.val.Interface())
 		if err == nil {
 			err = enc.Encode(op.val.Interface())
 		}
-		res.out, res.err = buf.Bytes(), errStr(err)
+		res.out, res.err = w.out, errStr(err)
 	case opJSONUnmarshal:
 		x := reflect.New(op.ty.rt)
 		err := json.Unmarshal(op.input, x.Interface())
@@ -178,6 +181,22 @@ func (op *c09Op) exec() (res c09Res) {
 		dec := json.NewDecoder(bytes.NewReader(op.input))
 		err := dec.Decode(x.Interface())
 		res.val, res.err = x.Interface(), errStr(err)
+	case opJSONTokenizerReuse:
+		// a tokenizer that failed with open scopes, is Reset and used again,
+		// interleaved with whatever the other simulated goroutines tokenize
+		var sig []byte
+		tok := json.NewTokenizer([]byte(`{"a":[1,{"b":[2,}`))
+		for tok.Next() {
+			simhook.Yield(simhook.KOp, -1)
+		}
+		sig = fmt.Appendf(sig, "err=%v;", tok.Err != nil)
+		tok.Reset(op.input)
+		for tok.Next() {
+			sig = append(sig, tok.Value...)
+			sig = fmt.Appendf(sig, "@%d.%d.%v ", tok.Depth, tok.Index, tok.IsKey)
+			simhook.Yield(simhook.KOp, -1)
+		}
+		res.out, res.err = sig, errStr(tok.Err)
 	case opJSONTokenizer:
 		var sig []byte
 		tok := json.NewTokenizer(op.input)
@@ -224,6 +243,14 @@ func (op *c09Op) exec() (res c09Res) {
 		res.snap = append([]byte(nil), res.out...)
 	}
 	return
+}
+
+type yieldingWriter struct{ out []byte }
+
+func (w *yieldingWriter) Write(p []byte) (int, error) {
+	simhook.Yield(simhook.KOp, -1)
+	w.out = append(w.out, p...)
+	return len(p), nil
 }
 
 func describeProtoType(t proto.Type, depth int) (s string) {
@@ -321,7 +348,7 @@ func c09MakeOp(t *tape.Tape, ty *simType, pool []*simType) *c09Op {
 	op := &c09Op{ty: ty}
 	switch ty.codec {
 	case gen.JSON:
-		op.kind = []int{opJSONMarshal, opJSONAppend, opJSONUnmarshal, opJSONParse, opJSONEncoder, opJSONDecoder, opJSONTokenizer, opJSONMarshalAnyMap, opJSONMarshal, opJSONUnmarshal}[t.Intn(10)]
+		op.kind = []int{opJSONMarshal, opJSONAppend, opJSONUnmarshal, opJSONParse, opJSONEncoder, opJSONDecoder, opJSONTokenizer, opJSONMarshalAnyMap, opJSONMarshal, opJSONUnmarshal, opJSONTokenizerReuse, opJSONEncoder}[t.Intn(12)]
 		op.val = vg.New(ty.rt)
 		switch op.kind {
 		case opJSONAppend:
@@ -329,7 +356,7 @@ func c09MakeOp(t *tape.Tape, ty *simType, pool []*simType) *c09Op {
 			if t.Bool() {
 				op.flags |= json.EscapeHTML
 			}
-		case opJSONUnmarshal, opJSONParse, opJSONDecoder, opJSONTokenizer:
+		case opJSONUnmarshal, opJSONParse, opJSONDecoder, opJSONTokenizer, opJSONTokenizerReuse:
 			b, err := json.Marshal(op.val.Interface())
 			if err != nil {
 				b = []byte(`{"unencodable":true}`)
